@@ -45,6 +45,15 @@ TRUSTED_BASE = [
 ]
 
 
+# functions whose verification conditions take minutes of solver time: discharged in the thorough tier only
+# (the quick tier still runs their bounded stand-in and every lighter function's obligations)
+HEAVY = {
+    'selfies/decoder.py::_form_rings_bilocally',
+    'selfies/mol_graph.py::MolecularGraph.add_ring_bond',
+    'selfies/mol_graph.py::MolecularGraph.update_bond_order',
+}
+
+
 def load_contract_module(path):
     name = 'vcontracts_' + os.path.basename(path)[:-3]
     spec = importlib.util.spec_from_file_location(name, path)
